@@ -102,6 +102,8 @@ func c18(p *core.Program, r *core.Report) {
 	c18TimePartOfPlainViews(p, r)
 	r.Rule("R4", "every view of the timestamp is written: a Field loop over viewsByTime(..) that writes bits (view.setBit) writes in every iteration, leaves the function only with an error, and is never left by a break")
 	c18EveryViewWritten(p, r)
+	r.Rule("R5", "the views of a record come from its own timestamp: a viewsByTime call inside a loop over records is not guarded by state carried over from an earlier record, unless the guard compares whole instants (Equal/Unix*) and no calendar part")
+	c18OwnTimestampViews(p, r)
 	r.Rule("R2", "a requested time range is answered from the time views: in every function that parses from/to arguments, a fragment read on a path where a parsed time is known to be set (or the field has no standard view) uses a view name produced by viewsByTimeRange on that path -- never the standard view, which also holds bits set without a timestamp")
 	c18RangeViews(p, r)
 	r.NotDecided = "that viewsByTimeRange yields a disjoint exact cover of every aligned range (calendar arithmetic on runtime values)"
